@@ -326,7 +326,7 @@ def site_leg(run, tier, names, accept):
         if name == "quick3":
             cases = sample(cases, 200, 3)
         if name == "deep3":
-            cases = sample(cases, 20000, 4)
+            cases = sample(cases, 6000, 4)
         with Pool(16, initializer=_init) as pool:
             events = pool.map(drive, list(enumerate(cases)), chunksize=8)
         allv = {}
